@@ -48,23 +48,32 @@ try:
     if target is None and ('go test .' in demo_cmd or 'package telemetry' in readme):
         target = '.'
     res['demo_target'] = target
+    per_file = {}
     if target is not None:
         for fn in os.listdir(os.path.join(md, 'demo')):
             if fn.endswith('.go'):
-                shutil.copy(os.path.join(md, 'demo', fn), os.path.join(d, target, fn))
+                src = open(os.path.join(md, 'demo', fn)).read()
+                mpk = re.search(r'^package (\w+)', src, re.M)
+                pk = (mpk.group(1) if mpk else '').replace('_test', '')
+                tdir = target
+                for c in sorted(cands, key=len, reverse=True):
+                    if os.path.basename(c) == pk:
+                        tdir = c
+                        break
+                per_file[fn] = tdir
+                shutil.copy(os.path.join(md, 'demo', fn), os.path.join(d, tdir, fn))
         runpat = '|'.join(re.findall(r'func (Test\w+)', ''.join(open(os.path.join(md, 'demo', fn)).read() for fn in os.listdir(os.path.join(md, 'demo')) if fn.endswith('.go'))))
         moddir = 'godev' if target.startswith('godev/') else '.'
-        pkg = './' + (target[len('godev/'):] if target.startswith('godev/') else target)
-        cmd = "cd %s && go test -count=1 -run '%s' %s 2>&1 | tail -15" % (moddir, runpat, pkg)
+        pkgs = sorted({'./' + (t[len('godev/'):] if t.startswith('godev/') else t) for t in per_file.values()} or {'./' + target})
+        cmd = "cd %s && go test -count=1 -run '%s' %s 2>&1 | tail -15" % (moddir, runpat, ' '.join(pkgs))
         rc, out = sh(cmd, d, timeout=600); res['demo_fails_with_patch'] = ('FAIL' in out or 'panic' in out or rc != 0) and 'ok  ' not in out.split('\n')[-2:][0]
         print('WITH PATCH:', out[-600:])
         sh('git apply -R --whitespace=nowarn %s' % os.path.join(md, 'patch.diff'), d)
         rc, out = sh(cmd, d, timeout=600); res['demo_passes_without_patch'] = 'ok  ' in out and 'FAIL' not in out
         print('WITHOUT PATCH:', out[-300:])
         sh('git apply --whitespace=nowarn %s' % os.path.join(md, 'patch.diff'), d)
-        for fn in os.listdir(os.path.join(md, 'demo')):
-            if fn.endswith('.go'):
-                os.remove(os.path.join(d, target, fn))
+        for fn, tdir in per_file.items():
+            os.remove(os.path.join(d, tdir, fn))
     # run the check against the patched copy
     shutil.rmtree(os.path.join(d, '.git'), ignore_errors=True)
     t = time.time()
